@@ -31,7 +31,10 @@ def _history_case(draw, tier):
     big = tier == "thorough"
     ops = draw(history.op_lists(cfg, min_ops=2, max_ops=20 if big else 12, max_sweep=120 if big else 50,
                                 allow_point=True))
-    return {"kind": "history", "cfg": cfg, "ops": ops, "perm": draw(st.integers(0, 2 ** 31 - 1))}
+    return {"kind": "history", "cfg": cfg, "ops": ops, "perm": draw(st.integers(0, 2 ** 31 - 1)),
+            # a second Brownian object with the same entropy and options is built (and asked for the whole interval) at a drawn
+            # point of the history: what the first object returns must not change
+            "twin_at": draw(st.sampled_from([None, None, None, 1, 1, 2, 5, 20]))}
 
 
 def strategy(tier):
@@ -81,6 +84,8 @@ def run_case(case):
     cfg = case["cfg"]
     bm, interval, meta = history.build(cfg, torchsde, torch)
     queries = history.expand(case)
+    if case.get("twin_at") is not None:
+        queries = [(cfg["t0"], cfg["t1"])] + queries + [(cfg["t0"], cfg["t1"])]
     first = {}          # (ta, tb) -> (index of first sight, tensors)
     distinct_since = {}
     order = []
@@ -91,7 +96,12 @@ def run_case(case):
     tree_dt0 = getattr(interval, "_tree_dt", None)
     rebuild_marks = []  # query indices at which the dependency tree was observed to have been rebuilt
     checks = 0
+    twins = []
     for idx, (a, b) in enumerate(queries):
+        if case.get("twin_at") is not None and idx == min(case["twin_at"], len(queries) - 1) and not twins:
+            bm_t, _, _ = history.build(cfg, torchsde, torch)
+            bm_t(cfg["t0"], cfg["t1"])
+            twins.append(bm_t)
         got = bm(a, b)
         td = getattr(interval, "_tree_dt", None)
         if td != tree_dt0:
@@ -166,6 +176,8 @@ def run_case(case):
         labels.append("repeat_across_rebuild")
     if flag_checks:
         labels.append("return_flag_subsets_checked")
+    if twins:
+        labels.append("twin_object_built_mid_history")
     return Result(nontrivial=(far_repeat or rebuild_repeat) and len(order) >= 3, labels=labels, checks=checks,
                   metrics={"queries_per_history": n0, "repeats_in_history": repeats})
 
